@@ -361,8 +361,30 @@ pub mod mirror {
             match tf {
                 TestFunction::Match(a, b) => match (s_of(a), s_of(b)) { (Some(s), Some(p)) => regex_full(&s, &p), _ => false },
                 TestFunction::Search(a, b) => match (s_of(a), s_of(b)) { (Some(s), Some(p)) => regex_find(&s, &p), _ => false },
+                // C14 (the documented extension functions of serde_json::Value; meaningful for that data type only): the VALUES of the
+                // arguments are handed over in written order, an argument that denotes nothing contributes none
+                TestFunction::Custom(name, args) => {
+                    let vals: Vec<V<'a, T>> = args.iter().filter_map(|a| self.arg_value(a, cur)).collect();
+                    let refs: Vec<&T> = vals.iter().map(|v| v.get()).collect();
+                    ext_sets(name, &refs) == Some(true)
+                }
                 _ => false,
             }
+        }
+    }
+    /// C14, from the property statement: with an array as second argument `in(x, L)` is true exactly when some element of L equals x and
+    /// `nin` is its negation; for two arrays `any_of` iff they share an element, `none_of` iff they share none, `subset_of` iff every element
+    /// of A occurs in B.  A missing argument (any argument count other than two) or a non-array where an array is required: no result
+    /// (None; the test is false).  "Equals" is the data type's own equality (PartialEq), as in the Verus spec (abstract kernel value_eq).
+    pub fn ext_sets<T: Queryable>(name: &str, a: &[&T]) -> Option<bool> {
+        if a.len() != 2 { return None; }
+        match name {
+            "in" => a[1].as_array().map(|l| l.iter().any(|e| e == a[0])),
+            "nin" => a[1].as_array().map(|l| !l.iter().any(|e| e == a[0])),
+            "any_of" => match (a[0].as_array(), a[1].as_array()) { (Some(x), Some(l)) => Some(x.iter().any(|e| l.iter().any(|f| e == f))), _ => None },
+            "none_of" => match (a[0].as_array(), a[1].as_array()) { (Some(x), Some(l)) => Some(!x.iter().any(|e| l.iter().any(|f| e == f))), _ => None },
+            "subset_of" => match (a[0].as_array(), a[1].as_array()) { (Some(x), Some(l)) => Some(x.iter().all(|e| l.iter().any(|f| e == f))), _ => None },
+            _ => None,
         }
     }
     pub fn logical(tf: &TestFunction) -> bool {
